@@ -1073,6 +1073,31 @@ pub fn shrink(out: &mut dyn Write, base: &Case, prefix: &str, budget: usize) -> 
     Ok(cur)
 }
 
+/// tiny inputs over a SLOW iterator source (every `next()` sleeps), several workers, chunk size 1:
+/// one worker is inside the source, others have reserved their positions and wait for the handle,
+/// and more workers are still being spawned — the windows around `has_more()` / `skip_to_end()`
+pub fn gen_tiny_slow_case(rng: &mut Rng, terms: &[TermD], kinds_pool: &[&str]) -> Case {
+    let kinds = *rng.pick(kinds_pool);
+    let ops: Vec<OpD> = kinds.chars().map(|k| gen_op(rng, k)).collect();
+    let term = rng.pick(terms).clone();
+    let len = rng.range(2, 9) as usize;
+    let input = gen_input(rng, len, true);
+    let nt = rng.range(3, 8) as usize;
+    let mut sets = vec![vec![]; ops.len() + 1];
+    sets[0] = vec![SetD::NtUsize(nt)];
+    match rng.below(4) {
+        0 => {}
+        1 => sets[0].push(SetD::CsEnum(ChunkSize::Min(nz(1)))),
+        2 => sets[0].push(SetD::CsUsize(2)),
+        _ => sets[0].push(SetD::CsUsize(1)),
+    }
+    let src_kind = *rng.pick(&['k', 'k', 'u']);
+    // jitter bits 1 and 2 set: every pull from the source is slow; bit 3 alone: exactly one slow
+    // position, the pulls before it are fast
+    let j = if rng.chance(1, 2) { rng.next() | 6 | 1 } else { (rng.next() & !14u64) | 8 | 1 };
+    Case { src_kind, input, ops, sets, term, mode: Mode::Free(j), panic_at: None }
+}
+
 pub fn gen_pred(rng: &mut Rng) -> PredD {
     let k = *rng.pick(&[1u64, 2, 3, 5, 7, 11, 50, 1000, 1_000_003]);
     PredD { k, r: rng.below(k.min(13)) }
@@ -1208,6 +1233,11 @@ pub fn run(out: &mut dyn Write, prop: &str, seed: u64, thorough: bool) -> std::i
                 emit_case(out, "grown-chunks", &c, false)?;
                 total_c.set(total_c.get() + 1);
             }
+            for _ in 0..n(300, 3000) {
+                let c = gen_tiny_slow_case(&mut rng, &t, &["M", "F", "MF", "P", "PF", "X", "XF", "MM"]);
+                emit_case(out, "tiny-slow-source", &c, false)?;
+                total_c.set(total_c.get() + 1);
+            }
         }
         "C02" => {
             let mut t = vec![TermD::First, TermD::FirstIdx];
@@ -1274,6 +1304,11 @@ pub fn run(out: &mut dyn Write, prop: &str, seed: u64, thorough: bool) -> std::i
                 emit_case(out, "grown-chunks", &c, false)?;
                 total_c.set(total_c.get() + 1);
             }
+            for _ in 0..n(400, 4000) {
+                let c = gen_tiny_slow_case(&mut rng, &tl, &["", "M", "F", "MF", "P", "PF", "X", "XF"]);
+                emit_case(out, "tiny-slow-source", &c, false)?;
+                total_c.set(total_c.get() + 1);
+            }
         }
         "C04" => {
             go(out, &mut rng, "count", &base(vec![TermD::Count, TermD::ForEach]), n(4000, 30000))?;
@@ -1285,6 +1320,11 @@ pub fn run(out: &mut dyn Write, prop: &str, seed: u64, thorough: bool) -> std::i
             for _ in 0..n(300, 3000) {
                 let c = gen_grown_case(&mut rng, &[TermD::Count, TermD::Count, TermD::ForEach], &["M", "F", "MF", "P", "PF", "X", "XF"], false);
                 emit_case(out, "grown-chunks", &c, false)?;
+                total_c.set(total_c.get() + 1);
+            }
+            for _ in 0..n(300, 3000) {
+                let c = gen_tiny_slow_case(&mut rng, &[TermD::Count, TermD::Count, TermD::ForEach], &["", "M", "F", "MF", "P", "PF", "X", "XF"]);
+                emit_case(out, "tiny-slow-source", &c, false)?;
                 total_c.set(total_c.get() + 1);
             }
         }
@@ -1302,6 +1342,11 @@ pub fn run(out: &mut dyn Write, prop: &str, seed: u64, thorough: bool) -> std::i
                 emit_case(out, "grown-chunks", &c, false)?;
                 total_c.set(total_c.get() + 1);
             }
+            for _ in 0..n(300, 3000) {
+                let c = gen_tiny_slow_case(&mut rng, &[TermD::CollectX], &["M", "F", "MF", "P", "PF", "X", "XF"]);
+                emit_case(out, "tiny-slow-source", &c, false)?;
+                total_c.set(total_c.get() + 1);
+            }
         }
         "C05" => {
             let mut t = collects(&mut rng);
@@ -1313,6 +1358,12 @@ pub fn run(out: &mut dyn Write, prop: &str, seed: u64, thorough: bool) -> std::i
             let mut o = base(t);
             o.src_kinds = vec!['v', 'k', 'u', 'u'];
             go(out, &mut rng, "calls", &o, n(4000, 30000))?;
+            let tc: Vec<TermD> = o.terms.iter().filter(|x| is_core_terminal(x)).cloned().collect();
+            for _ in 0..n(300, 3000) {
+                let c = gen_tiny_slow_case(&mut rng, &tc, &["M", "F", "MF", "P", "PF", "X", "XF"]);
+                emit_case(out, "tiny-slow-source", &c, false)?;
+                total_c.set(total_c.get() + 1);
+            }
         }
         "C06" => {
             let mut t = vec![];
@@ -1683,6 +1734,24 @@ pub fn run(out: &mut dyn Write, prop: &str, seed: u64, thorough: bool) -> std::i
                 writeln!(out, "BEGIN\t{}", c.enc())?;
                 out.flush()?;
                 emit_case(out, if with_panic { "panic" } else { "ownership" }, &c, false)?;
+                total_c.set(total_c.get() + 1);
+            }
+            // large owning sources: dropping the untouched remainder takes long, many workers
+            for _ in 0..n(40, 400) {
+                let mut c = gen_large_case(&mut rng, &[TermD::CollectVec, TermD::Count, TermD::Reduce(RedD::Add), TermD::Reduce(RedD::Max), TermD::First, TermD::CollectX, TermD::Collect], &["M", "F", "MF", "P", "PF", "X", "MM"], true);
+                c.input.truncate(rng.range(1500, 6000) as usize);
+                if with_panic {
+                    let ex = expect(&c);
+                    let cand: Vec<(u32, u64)> = ex.log.iter().copied().filter(|e| (e.0 as usize) < c.ops.len()).collect();
+                    if cand.is_empty() {
+                        continue;
+                    }
+                    // early, so that most of the input is still untouched when the panic strikes
+                    c.panic_at = Some(cand[rng.below((cand.len() as u64 / 8).max(1)) as usize]);
+                }
+                writeln!(out, "BEGIN\t{}", c.enc())?;
+                out.flush()?;
+                emit_case(out, "large", &c, false)?;
                 total_c.set(total_c.get() + 1);
             }
         }
